@@ -54,6 +54,7 @@ def run(rep: core.Report):
     _r18f(rep)
     _r18h(rep)
     _r18j(rep)
+    _r18k(rep)
     from rules import shared_selfalias
 
     shared_selfalias.run(rep, "R18i", ["phonopy/cui/create_force_sets.py", "phonopy/cui/phonopy_script.py", "phonopy/cui/load_helper.py", "phonopy/cui/collect_cell_info.py", "phonopy/file_IO.py", "phonopy/interface/vasp.py"])
@@ -269,6 +270,50 @@ def _r18g(rep):
 
 
 
+def _r18k(rep):
+    """Tag values read from a configuration file keep their case (the option route hands strings over unchanged)."""
+    rep.rule("R18k", "configuration file route: the value of a tag is stored as written (stripped only); case folding is applied to the tag name, never to the value -- band labels, file names, calculator options are case-sensitive and reach the settings unchanged on the option route, so a folded value makes 'TAG = value' and '--option value' mean different things", 1)
+    fn = core.find_def(SETT, "ConfParser.read_file")
+    FOLD = {"lower", "upper", "casefold", "capitalize", "title", "swapcase"}
+    stores = [st for st in ast.walk(fn) if isinstance(st, ast.Assign) and isinstance(st.targets[0], ast.Subscript) and core.src(st.targets[0].value) == "self._confs"]
+    if not stores:
+        raise AnalysisError("R18k: ConfParser.read_file no longer stores into self._confs")
+    asg = {}
+    for st in ast.walk(fn):
+        if isinstance(st, ast.Assign) and len(st.targets) == 1:
+            t = st.targets[0]
+            if isinstance(t, ast.Name):
+                asg.setdefault(t.id, []).append(st.value)
+            elif isinstance(t, (ast.Tuple, ast.List)):
+                for k, el in enumerate(t.elts):
+                    if isinstance(el, ast.Name):
+                        asg.setdefault(el.id, []).append(st.value)  # every element comes out of the same expression
+
+    def folded(e, depth=0):
+        for x in ast.walk(e):
+            if isinstance(x, ast.Call) and isinstance(x.func, ast.Attribute) and x.func.attr in FOLD:
+                return x
+            if isinstance(x, ast.Name) and x.id in asg and depth < 4:
+                for v in asg[x.id]:
+                    if v is None:
+                        continue
+                    r = folded(v, depth + 1) if not (isinstance(v, ast.Constant)) else None
+                    if r is not None:
+                        return r
+        return None
+
+    n = 0
+    for st in stores:
+        if isinstance(st.value, ast.BinOp) or (isinstance(st.value, ast.Call) and "self._confs" in core.src(st.value)):
+            continue  # continuation lines: the stored value extended / cleaned
+        n += 1
+        f = folded(st.value)
+        rep.instance("R18k", SETT, "ConfParser.read_file", f"{core.norm(core.src(st), 70)} : value stored as written", f is None,
+                     f"the value stored for a tag passes through '{core.norm(core.src(f), 50) if f is not None else ''}': BAND_LABELS, CELL_FILENAME, CREATE_FORCE_SETS file names, FC_CALCULATOR_OPTIONS ... given in a configuration file are case-folded while the same value given as an option is not", line=st.lineno)
+    if not n:
+        raise AnalysisError("R18k: no 'tag = value' store found in ConfParser.read_file")
+
+
 def _r18j(rep):
     """Calculator-dependent defaults are taken for the calculator of the calculation, not for the raw option."""
     rep.rule("R18j", "calculator-dependent defaults in the command-line front end (default units, displacement distance, default cell file name): the argument of every get_default_*(calculator) call is the resolved calculator -- the Phonopy object's, the collected cell information's, or a local that the phonopy.yaml's entry may overwrite -- never the raw option settings.calculator alone, which is None when the calculator is recorded only in the input yaml file", 8)
@@ -374,6 +419,7 @@ def selftest():
     b = lambda name, file, old, new, rule, expect="", **kw: V.append(dict(name=name, kind="break", file=file, old=old, new=new, rule=rule, expect=expect, **kw))
     n = lambda name, file, old, new, **kw: V.append(dict(name=name, kind="neutral", file=file, old=old, new=new, **kw))
     b("default displacement distance for the raw calculator option", SCRIPT, "get_default_displacement_distance(phonon.calculator)", "get_default_displacement_distance(settings.calculator)", "R18j", "main")
+    b("tag values lower-cased with the tag names", SETT, "                    left, right = [x.strip() for x in line.split(\"=\")]\n                    self._confs[left.lower()] = right", "                    left, right = [x.strip().lower() for x in line.split(\"=\")]\n                    self._confs[left] = right", "R18k", "read_file")
     CFS = "phonopy/cui/create_force_sets.py"
     b("residual forces subtracted through a view of the first set", CFS, "    for i in range(1, len(force_sets)):\n        force_sets[i] -= force_sets[0]\n", "    residual_forces = force_sets[0]\n    for forces in force_sets:\n        forces -= residual_forces\n", "R18i", "_subtract_residual_forces")
     n("residual forces subtracted through a copy of the first set", CFS, "    for i in range(1, len(force_sets)):\n        force_sets[i] -= force_sets[0]\n", "    residual_forces = force_sets[0].copy()\n    for forces in force_sets:\n        forces -= residual_forces\n")
